@@ -134,6 +134,18 @@ pub fn check_sequence(
             return Err(("RangeSet::is_empty".into(), format!("mask {mask:#b}")));
         }
     }
+    // Extend / FromIterator / Clone are documented as repeated insert: same set, also when the
+    // ranges arrive in reverse order
+    {
+        let rs: Vec<RangeInclusive<T>> = seq.iter().map(|pi| from_raw(cells.endpoints[pairs[*pi].0].0)..=from_raw(cells.endpoints[pairs[*pi].1].0)).collect();
+        let a: RangeSet<T> = rs.iter().cloned().collect();
+        let mut b = RangeSet::<T>::default();
+        b.extend(rs.iter().rev().cloned());
+        let c = s.clone();
+        if a != s || b != s || c != s || ranges_of(&b) != cells.runs(mask) {
+            return Err(("RangeSet::from_iter / extend / clone".into(), format!("differs from repeated insert: {:?} / {:?} / {:?} vs {:?}", ranges_of(&a), ranges_of(&b), ranges_of(&c), ranges_of(&s))));
+        }
+    }
     // intersections with the fixed operands, both argument orders, and with itself
     let mut h = vcore::Fnv::new();
     h.u64(mask as u64);
